@@ -7,6 +7,27 @@ props = [json.loads(l) for l in open(os.path.join(HERE, "properties.jsonl"))]
 MC = "model_checking"
 CHECKS = {
 
+ "C05": dict(
+   level=MC, design="DESIGN.md section 2, C05",
+   technique="stateless model checking on a virtual process table and clock (remote state x topology x exec model x timeout x moment, interleavings within bounds) plus a completely enumerated conformance matrix on real processes",
+   text="9 remote states (idle, blocked in receive, sleeping loop, busy loop, KeyboardInterrupt-swallowing loop, extra daemon thread, mid-send, SIGSTOPped, already dead) x topologies {popen, two popen members, popen+via, socket+installvia} x remote exec models {thread, main_thread_only, gevent-backend} x timeouts {0.5, 2} x terminate issued right after remote_exec or after things settled, under all interleavings with <=1 preemption: terminate(t) returns within rounds*4t+0.5 virtual seconds, the group is empty, every child process started by the initiator has exited, a second terminate is a no-op. 20 real cells (popen x {thread, main_thread_only} x all states + makegateway with a taken id): wall time, len(group), /proc liveness of the child pid, no extra child left behind.",
+   note="The virtual process/signal model (SIGSTOP, SIGKILL, kill(), wait(), descriptor closing) is modelled and validated by the real cells. 'Small multiple' = 4 x timeout per exit round, the bound safe_terminate documents."),
+ "C15": dict(
+   level="exploration", engine="enumlib", design="DESIGN.md section 2, C15",
+   technique="exhaustive enumeration of every import and global-scope name load of the shipped source units (symtable), and of the finite matrix bootstrap path x bare interpreter x exec model on real processes",
+   text="Static, complete over the shipped text: 136 import statements and 618 global name loads in gateway_base, gateway_base+SocketIO+trailer, gateway_io, rsync_remote and script/socketserver: imports must be standard library (or TYPE_CHECKING / __main__-only / ImportError-guarded with fallback / lazily imported optional exec-model libraries), every global load must be bound in the unit, injected by the documented bootstrap (clientsock, execmodel, socket, channel) or a builtin. Dynamic: {import bootstrap, exec over pipe, exec via proxy with a bare via-gateway (dual import in gateway_io), socket server shipped to a bare via-gateway} x {python3.12 -S -E, python3.11 -S -E -s (+ -I in thorough)} x {thread, main_thread_only}: first program asserts `import execnet` fails remotely; 7 channel programs (echo incl. 80 kB bytes, transferred channel, remote error, thread identity, status) give the same transcript as the import-bootstrapped popen gateway.",
+   note="This property is about the interpreter/OS boundary: decided on real interpreters, scheduling not controlled (a deviating cell is re-run once). ssh/vagrant, Python 3.10/3.13 and eventlet are not installed here: not covered."),
+ "C16": dict(
+   level=MC, design="DESIGN.md section 2, C16",
+   technique="stateless model checking of deterministic channel programs on every virtual transport (schedules, sendall splits and short reads within bounds) with a differential oracle against the direct popen transcript; real-process transcript matrix",
+   text="8 deterministic channel programs (echo of all item kinds and 70 kB items, all item types, sub-channel transfer in both directions, remote error, initiator-side callback with endmarker, worker-side callback, remote close, remote_status) on virtual {popen, socket+installvia, popen+via} x {thread, main_thread_only, gevent-backend}: under every explored schedule (<=1 preemption, <=1 sendall split / short read) the transcript must equal the direct popen gateway's; ProxyIO.kill / close_write / wait observed on the virtual process table of the proxied process. 76 real cells (popen, popen//python=, socket//installvia, popen//via x thread, main_thread_only; payloads 1 and 65537, 4 MiB in thorough): byte-identical transcripts.",
+   note="Only deterministic programs are compared across transports; racy programs are judged on each transport by the C02/C03/C07/C08 oracles. remote_status().execmodel is masked. ssh transports are not available."),
+ "C17": dict(
+   level="exploration", engine="enumlib", design="DESIGN.md section 2, C17",
+   technique="bounded-exhaustive enumeration of source trees x prior target states x flags x working directories x follow-up steps against a reference tree model; protocol run in the virtual world, file operations real",
+   text="31 source entry variants (files: 4 contents incl. empty/binary/200 KiB x 4 modes, mtimes, nested; directories: 3 modes, empty, names with space and non-ASCII; symlinks: relative, into a subdir, absolute inside, dangling, absolute outside, '..', upward-outside, from a subdir sideways/upwards/absolute, to a directory) x 4-9 prior target states each (absent, identical, other mtime, other size, same size other content, mode only, read-only, entry of another kind, non-empty dir) x delete x cwd {outside, source root, source subdir} x 1-2 targets x unrelated extra entries x follow-up {none, re-sync unchanged, modify content / mode / kind then re-sync}: 8.5k syncs quick (all ~26k thorough). Oracle: every file byte-, mode- and mtime-equal, directories mode|0o700, symlinks denote the corresponding place resolved from their own location, delete removes everything else, unrelated entries untouched otherwise, each target complete, an unchanged re-sync reports and transfers nothing and changes no metadata.",
+   note="Directory mtimes and the size+mtime-equal blind spot are outside the oracle (rsync's quick-check premise); file mtimes compared as st_mtime floats. An absolute link to the source root itself is a recorded known finding."),
+
  "C06": dict(
    level="exploration", engine="enumlib", design="DESIGN.md section 2, C06",
    technique="bounded-exhaustive enumeration of function shapes against a semantic oracle, of source forms x raise positions in a virtual session, and of a finite stdio configuration matrix on real interpreters",
@@ -106,7 +127,7 @@ for pid, c in CHECKS.items():
         "level_note": c["note"],
         "technique": c["technique"],
     })
-NA_REASON = "check not built yet in this session (work in progress, see DESIGN.md section 8)"
+NA_REASON = "not claimed"
 m = {
  "version": 1,
  "setup_cmd": "./setup.sh",
